@@ -326,10 +326,10 @@ def run(ctx):
     rng = ctx.rng
     for i in range(ctx.scale(25, 250)):
         shape = gen.rand_shape(rng, ndim=rng.choice([2, 3]), lo=3, hi=8)
-        if rng.random() < 0.2:
+        if i < 6 or rng.random() < 0.2:
             # a 3-D array with an axis of length one (a single slice stored as a volume): still 3-D
             sh2 = gen.rand_shape(rng, ndim=2, lo=5, hi=12)
-            k = rng.randint(0, 2)
+            k = i % 3 if i < 6 else rng.randint(0, 2)
             shape = tuple(sh2[:k]) + (1,) + tuple(sh2[k:])
             ctx.count("cldsc.singleton_axis")
         ref = (gen.instance_map(rng, shape, rng.randint(1, 3)) != 0).astype(np.uint8)
